@@ -24,7 +24,7 @@ type Obl struct {
 	Prefix int
 	PC     Term
 	Goal   Term
-	Parts  []Term // conjuncts of the goal, each decided by its own query
+	Parts  []Term   // conjuncts of the goal, each decided by its own query
 	Uses   []string // resolved assumption flags to keep (nil: all)
 	NFlags int
 	Cover  bool // expected sat
@@ -51,48 +51,49 @@ type epochParent struct {
 
 // FnEnc encodes one function.
 type FnEnc struct {
-	c        *Ctx
-	fn       *ssa.Function
-	key      string
-	pkgPath  string
-	contract *FuncContract
-	cf       *ContractFile
-	lines    []string
-	sorts    *Sorts
-	declared map[string]bool
-	nfresh   int
-	regs     map[ssa.Value]RV
-	obls     []*Obl
-	oblCount map[string]int
-	lits     map[string]string // const name -> literal
-	loops    []*Loop
-	loopOf   map[*ssa.BasicBlock]*Loop
-	dry      bool
-	fnWrites *WriteSet
-	curBlock *ssa.BasicBlock
-	entry    *State
-	epochs   int
-	epochPar map[int][]epochParent
-	compSort map[string]string
-	params   map[string]RV // entry values by contract/SSA name
-	unsupp   []string
-	havocs   map[string]bool // callees treated by havoc-all
-	assumed  map[string]bool // assumed contracts / effect-table entries used
-	sweep    bool            // generate safety obligations
-	defers   []*ssa.Defer
-	deferArgs map[*ssa.Defer][]RV
-	retVals  []RV
-	callOrd  map[string]int
-	file     *ast.File
+	c           *Ctx
+	fn          *ssa.Function
+	key         string
+	pkgPath     string
+	contract    *FuncContract
+	cf          *ContractFile
+	lines       []string
+	sorts       *Sorts
+	declared    map[string]bool
+	nfresh      int
+	regs        map[ssa.Value]RV
+	obls        []*Obl
+	oblCount    map[string]int
+	assertFired map[int]bool
+	lits        map[string]string // const name -> literal
+	loops       []*Loop
+	loopOf      map[*ssa.BasicBlock]*Loop
+	dry         bool
+	fnWrites    *WriteSet
+	curBlock    *ssa.BasicBlock
+	entry       *State
+	epochs      int
+	epochPar    map[int][]epochParent
+	compSort    map[string]string
+	params      map[string]RV // entry values by contract/SSA name
+	unsupp      []string
+	havocs      map[string]bool // callees treated by havoc-all
+	assumed     map[string]bool // assumed contracts / effect-table entries used
+	sweep       bool            // generate safety obligations
+	defers      []*ssa.Defer
+	deferArgs   map[*ssa.Defer][]RV
+	retVals     []RV
+	callOrd     map[string]int
+	file        *ast.File
 	implicitInv []Clause
-	cellClos map[*ssa.Alloc]*ClosInfo
+	cellClos    map[*ssa.Alloc]*ClosInfo
 	curCallRecv ssa.Value
 	curCallArgs []ssa.Value
-	fvVals   map[*ssa.FreeVar]RV
-	compT    map[string]types.Type
-	qctx     string // context name for quantifier ids
-	flags    []string // assumption switches, in order of declaration
-	litOrder []string
+	fvVals      map[*ssa.FreeVar]RV
+	compT       map[string]types.Type
+	qctx        string   // context name for quantifier ids
+	flags       []string // assumption switches, in order of declaration
+	litOrder    []string
 }
 
 func (c *Ctx) newFnEnc(fn *ssa.Function, dry bool) *FnEnc {
